@@ -81,7 +81,9 @@ class C02(Prop):
                   "give equal bags (C02_order_independent_flat_partial); (2) broadcast: one scattered port plus any number "
                   "of ports delivering one parent-tagged token -- every scattered tag gets exactly one combination made "
                   "of its token and the broadcast parent tokens, whenever the parents arrive "
-                  "(C02_dot_broadcast_partial); (3) cartesian product of depth d>=1 over streams whose tag groups are "
+                  "(C02_dot_broadcast_partial), and the same with SEVERAL scattered ports on one flat dot product, where the "
+                  "code keeps an arrival-dependent number of copies of each parent token and the proof carries the counts "
+                  "as an existential invariant (C02_dot_broadcast_multi_partial); (3) cartesian product of depth d>=1 over streams whose tag groups are "
                   "unrelated (implied by 'all tokens of one depth', C02_uniform_depth_groups_unrelated): the emitted "
                   "combinations are exactly the full cross product, each once, with the composite tag "
                   "(C02_cartesian_partial), and two arrival orders give equal bags "
@@ -92,8 +94,8 @@ class C02(Prop):
                   "inner combinations is a hypothesis stated on the specification). Three _refuted theorems exhibit the input classes in which "
                   "the faithful model breaks the property text (a tag and its ancestor on one port of a dot product; a "
                   "cartesian combinator with an inner combinator; a cartesian combinator over tokens of different depth). "
-                  "NOT proved: broadcast with several independently scattered ports on one flat dot product or several tag "
-                  "levels, trees deeper than 2; these "
+                  "NOT proved: several tag levels at one combinator (per-port antichains in general), trees deeper "
+                  "than 2; these "
                   "are decided case by case by an oracle written from the property text on the real code (combine() and "
                   "CombinatorStep.run) under all / many arrival permutations, and the model (dict order, pop from the "
                   "right, tag re-binding, exceptions included) is compared with the real code on every such run.")
